@@ -342,9 +342,11 @@ package dns
 //@ func noRdata [C01 C02]
 //@   ensures ret0 == (h.Rdlength == 0)
 
+// the record is created by the constructor TypeToRR holds for the type code (what the table holds is decided by the
+// structural obligation UnpackRRWithHeader#table.constructors): a known code yields the Go type the schema gives it,
+// carrying the header as given; an unknown code yields an RFC3597 record
 //@ func UnpackRRWithHeader [C01 C02]
-//@   opt dyncalls-pure
-//@   assume at "*rr.Header() = h" rr != nil
+//@   ensures typed: err == nil ==> typeofcode(rr, h.Rrtype) && hdr(rr).Rrtype == h.Rrtype [C02 C11 C15 C18]
 //@   ensures in:   err == nil ==> 0 <= off && off <= off1 && off1 <= len(msg) && off1 == off + h.Rdlength
 //@   ensures some: err == nil ==> rr != nil
 // a record without RDATA (dynamic update, RFC 2136 2.4/2.5) must pack to RDLENGTH 0 again: it is handed out as a
@@ -354,6 +356,7 @@ package dns
 
 //@ func UnpackRR [C01 C02]
 //@   requires 0 <= off
+//@   ensures typed: err == nil ==> typeofcode(rr, hdr(rr).Rrtype) [C02 C11 C15 C18]
 //@   ensures some: err == nil ==> rr != nil
 //@   ensures ok:   err == nil ==> off <= off1 && off1 <= len(msg)
 //@   ensures adv:  err == nil && off < len(msg) ==> off + 11 <= off1
